@@ -101,7 +101,9 @@ func VerifH_C13_foreach_items() {
 		verifrt.Assert(c.prev == "failed" && c.out == "error", "some item failed or ended in a non-success output: the step reports failed.error")
 		m, ok := c.data.(map[string]any)
 		verifrt.Assert(ok, "error output is an object")
-		errs, ok := m["errors"].(map[int]string)
+		// integer-keyed maps, whatever integer type the implementation uses for the keys (the declared
+		// schema's conformance is C08's subject)
+		errs, ok := verifIntKeyed(m["errors"])
 		verifrt.Assert(ok, "error output has the declared 'errors' map")
 		if ok {
 			verifrt.Assert(len(errs) == len(failing), "exactly the failing item indexes are reported")
@@ -110,7 +112,7 @@ func VerifH_C13_foreach_items() {
 				verifrt.Assert(has, "every failing item index has a message")
 			}
 		}
-		data, ok := m["data"].(map[int]any)
+		data, ok := verifIntKeyed(m["data"])
 		verifrt.Assert(ok, "error output has the 'data' map of the other results")
 		if ok {
 			verifrt.Assert(len(data) == n-len(failing), "the results of exactly the other items are reported")
@@ -217,4 +219,30 @@ func VerifH_C09_foreach_no_waiting_window() {
 	}
 	close(sub.gate)
 	verifEpilogue(h, r, sub)
+}
+
+// verifIntKeyed reads a map with integer keys of either width.
+func verifIntKeyed(v any) (map[int]any, bool) {
+	res := map[int]any{}
+	switch m := v.(type) {
+	case map[int]string:
+		for k, x := range m {
+			res[k] = x
+		}
+	case map[int]any:
+		for k, x := range m {
+			res[k] = x
+		}
+	case map[int64]string:
+		for k, x := range m {
+			res[int(k)] = x
+		}
+	case map[int64]any:
+		for k, x := range m {
+			res[int(k)] = x
+		}
+	default:
+		return nil, false
+	}
+	return res, true
 }
